@@ -50,6 +50,27 @@ func keyWithD(shape string) *sm2.PrivateKey {
 		x, y := c.ScalarBaseMult(d.Bytes())
 		return &sm2.PrivateKey{PublicKey: sm2.PublicKey{Curve: c, X: x, Y: y}, D: d}
 	}
+	if strings.HasPrefix(shape, "ylow") {
+		// the last byte of the key's DER forms (the low byte of the public y) has the value k, the private key has l bytes:
+		// every value a block-cipher pad byte can have, next to the data it pads
+		var k, l int
+		fmt.Sscanf(shape, "ylow%d_%d", &k, &l)
+		for {
+			b := make([]byte, 32)
+			rand.Read(b[32-l:])
+			if b[32-l] == 0 {
+				continue
+			}
+			d := new(big.Int).SetBytes(b)
+			if d.Cmp(new(big.Int).Sub(c.Params().N, big.NewInt(2))) >= 0 {
+				continue
+			}
+			x, y := c.ScalarBaseMult(d.Bytes())
+			if yb := y.Bytes(); int(yb[len(yb)-1]) == k {
+				return &sm2.PrivateKey{PublicKey: sm2.PublicKey{Curve: c, X: x, Y: y}, D: d}
+			}
+		}
+	}
 	for {
 		b := make([]byte, 32)
 		rand.Read(b)
